@@ -66,7 +66,7 @@ static sf_count_t		host_write_i2d	(SF_PRIVATE *psf, const int *ptr, sf_count_t l
 static sf_count_t		host_write_f2d	(SF_PRIVATE *psf, const float *ptr, sf_count_t len) ;
 static sf_count_t		host_write_d	(SF_PRIVATE *psf, const double *ptr, sf_count_t len) ;
 
-static void		double64_peak_update	(SF_PRIVATE *psf, const double *buffer, int count, sf_count_t indx) ;
+static void		double64_peak_update	(SF_PRIVATE *psf, const double *buffer, sf_count_t count, sf_count_t indx) ;
 
 static int		double64_get_capability	(SF_PRIVATE *psf) ;
 
@@ -431,9 +431,9 @@ double64_le_write (double in, unsigned char *out)
 */
 
 static void
-double64_peak_update	(SF_PRIVATE *psf, const double *buffer, int count, sf_count_t indx)
+double64_peak_update	(SF_PRIVATE *psf, const double *buffer, sf_count_t count, sf_count_t indx)
 {	int 	chan ;
-	int		k, position ;
+	sf_count_t	k, position ;
 	double	fmaxval ;
 
 	for (chan = 0 ; chan < psf->sf.channels ; chan++)
